@@ -13,6 +13,10 @@ Definition lin_openfile_setmode : Z := 1.
 Definition lin_mkdir_setmode : Z := 1.
 (* memmap.go RemoveAll: number of Lock/RLock acquisitions in its body (1 = one critical section) *)
 Definition lin_removeall_locks : Z := 4.
+(* memmap.go Chmod (with setFileMode when called): number of Lock/RLock acquisitions (1 = lookup and update in one critical section) *)
+Definition lin_chmod_locks : Z := 3.
+(* memmap.go Chtimes: number of Lock/RLock acquisitions (1 = lookup and update in one critical section) *)
+Definition lin_chtimes_locks : Z := 2.
 (* path.go Walk: 1 iff a final filepath.SkipDir is converted into nil (as path/filepath.Walk does) *)
 Definition walk_skipdir_to_nil : Z := 1.
 (* sftpfs/sftp.go MkdirAll: 1 iff the fast path returns an error for an existing non-directory *)
@@ -48,7 +52,7 @@ Definition readonly_mask : Z := 1603.
 (* mem/file.go FileInfo.Size of a directory *)
 Definition dir_size : Z := 42.
 (* regexpfs.go OpenFile: 1 iff the returned file is wrapped in a RegexpFile (filtered listings) *)
-Definition regexp_openfile_wraps : Z := 0.
+Definition regexp_openfile_wraps : Z := 1.
 (* copyOnWriteFs.go OpenFile: write path iff flag&MASK != 0 *)
 Definition cow_mask : Z := 1603.
 (* cacheOnReadFs.go OpenFile: union handle over both layers iff flag&MASK != 0 *)
